@@ -1064,6 +1064,34 @@ impl Transaction {
                 return false;
             }
 
+            // like any user-originated transaction a staking transaction cannot create
+            // tokens and must be signed by the owner of every input it spends
+            if self.total_out > self.total_in {
+                error!("ERROR 802395: staking transaction spends more than it has available");
+                return false;
+            }
+            if let Some(first_input) = self.from.first() {
+                let signer: SaitoPublicKey = first_input.public_key;
+                let signed = match &self.hash_for_signature {
+                    Some(hash_for_signature) => {
+                        verify_signature(hash_for_signature, &self.signature, &signer)
+                    }
+                    None => false,
+                };
+                if !signed {
+                    error!("ERROR 757295: staking transaction is not signed by the owner of its inputs");
+                    return false;
+                }
+                if self
+                    .from
+                    .iter()
+                    .any(|slip| slip.amount > 0 && slip.public_key != signer)
+                {
+                    error!("ERROR 757296: staking transaction spends an input its signer does not own");
+                    return false;
+                }
+            }
+
             return true;
         }
 
